@@ -747,7 +747,7 @@ pub fn run(args: &Args) -> i32 {
         let check_hdr = |ty: u8, sf: u8, regen: u32, comp: u32| -> Option<(String, String, String)> {
             let mut raw = spec_write_lit_header(ty, sf, regen, comp);
             let want = spec_parse_lit_header(&raw);
-            debug_assert_eq!(want.regen, regen);
+            // (a sampled value wider than its field spills into the next one: `want` is what the bytes mean, which is what counts)
             raw.extend_from_slice(&[0; 3]);
             let got = catch(|| dec::parse_literals_header(&raw));
             let ok = match &got {
